@@ -10,7 +10,7 @@ package api
 //@ poolinv "*api.EntryOptions": it.slotChain == nil && len(it.args) == 0 && it.batchCount == 1
 
 //@ func entry(resource, options) (e, b)
-//@   props C01, C16
+//@   props C01, C06, C16
 //@   requires options != nil && (options.slotChain != nil ==> options.slotChain.ctxPool != nil)
 //@   panics never
 //@   let sc = options.slotChain
@@ -25,8 +25,10 @@ package api
 //@   ensures[passed-is-counted-after-contained-panic]{C01} e != nil && sc != nil && e.ctx != nil && e.ctx.err != nil ==> gPassN == a0 + len(sc.stats)
 //@   ensures[blocked-told-once-no-completion] b != nil ==> gBlkN == k0 + len(sc.stats) && gPassN == a0 && gCompN == c0
 //@   modifies gPrepN, gPrepRecv, gChkN, gChkRecv, gChkRes, gChkBlocked, gPassN, gPassRecv, gBlkN, gBlkRecv, gBlkErr, gCompN, gCompRecv, gHandlerN, gAdded, gConc, allfields(base.EntryContext), allfields(base.SentinelInput), allfields(base.TokenResult)
+//@   ensures[args-not-shared-with-options]{C01,C06} e != nil && e.ctx != nil && len(e.ctx.Input.Args) > 0 ==> base(e.ctx.Input.Args) != base(options.args)
 //@   witness nothing = 0
 //@   replay api_panicking_slot
+//@   replay api_args_alias for args-not-shared
 //@   ensures[entry-carries-request] e != nil && sc != nil ==> fresh(e) && e.ctx != nil && e.ctx.entry == e && e.sc == sc && e.ctx.Input.BatchCount == options.batchCount && e.ctx.Resource != nil && e.ctx.Resource.name == resource && e.ctx.Resource.flowType == options.entryType
 
 // user options only write the options object they are applied to (and append to its argument list)
@@ -34,8 +36,11 @@ package api
 //@   ensures opts.slotChain != nil ==> opts.slotChain.ctxPool != nil
 //@   modifies fields(opts)
 
+// gLastPooled: the object most recently handed back to a sync.Pool by the function under verification
+//@ ghost var gLastPooled Int
+
 //@ func Entry(resource, opts) (e, b)
-//@   props C01, C16
+//@   props C01, C06, C16
 //@   requires entryOptsPool != nil && pooltype(entryOptsPool, "*api.EntryOptions") && (globalSlotChain != nil ==> globalSlotChain.ctxPool != nil)
 //@   panics never
 //@   let a0 = gPassN
@@ -45,6 +50,7 @@ package api
 //@   ensures[block-error-fresh] b != nil ==> fresh(b)
 //@   ensures[blocked-no-completion] b != nil ==> gPassN == a0 && gCompN == c0
 //@   ensures[passed-not-completed-yet] e != nil ==> gCompN == c0
+//@   ensures[options-returned-to-pool] gLastPooled != 0
 //@   loop 1:
 //@     invariant[options-live] options != nil && allocated(options)
 //@     invariant[chains-have-pools] options.slotChain != nil ==> options.slotChain.ctxPool != nil
